@@ -33,14 +33,14 @@ Proof.
     replace (P ++ STok (cnext c) :: G ++ Q) with ((P ++ [STok (cnext c)]) ++ G ++ Q)
       by (rewrite <- app_assoc; reflexivity).
     rewrite (IH G f (S i) (S k0) (S count) (P ++ [STok (cnext c)]) Q
-               (mkctx (S (cnext c)) [] (EInit (cnext c) (Some s) :: clog c))); simpl; try lia; try nia.
+               (mkctx (S (cnext c)) [] (EInit (cnext c) (Some s) :: clog c))); try lia; try nia.
     + rewrite <- !app_assoc. simpl.
       replace (S (cnext c + length G)) with (cnext c + S (length G)) by lia.
       replace (S (count + length G)) with (count + S (length G)) by lia. reflexivity.
     + rewrite app_length. simpl. lia.
     + reflexivity.
     + intros j Hj. specialize (SRC (S j) ltac:(lia)). simpl nth in SRC.
-      replace (S (k0 + j)) with (k0 + S j) by lia. assumption.
+      replace (S k0 + j) with (k0 + S j) by lia. assumption.
 Qed.
 
 Lemma nth_error_map_tok E J j : j < length E -> nth_error (map STok E ++ J) j = Some (STok (nth j E 0)).
@@ -81,4 +81,114 @@ Proof.
   destruct (Nat.eqb_spec (length E * sz) 0) as [Z|Z]; simpl negb; cbn iota.
   - rewrite Z. reflexivity.
   - reflexivity.
+Qed.
+
+Lemma kind_eqb_refl k : kind_eqb k k = true.
+Proof. destruct k; reflexivity. Qed.
+
+(* OpDetach on a shared typed buffer whose type allows copies, every constructor succeeding *)
+Lemma shared_detach_constructs e nh w h id b k len :
+  env_ok e -> winv e nh w -> h < nh ->
+  handle w h = Some id -> hget w id = Some b -> btr b = Some k ->
+  2 <= bref b -> bncp b = false -> ecopyfail e = false -> cscript (wctx w) = [] ->
+  bused b <= len ->
+  exists w' nid nb,
+    step e w (OpDetach h len) = Ok (w', OOk)
+    /\ handle w' h = Some nid /\ nid <> id
+    /\ hget w' nid = Some nb /\ hget w' id = Some (with_ref b (bref b - 1))
+    /\ clog (wctx w') = rev (copy_events (cnext (wctx w)) (buf_els e b)) ++ clog (wctx w)
+    /\ buf_els e nb = seq (cnext (wctx w)) (length (buf_els e b))
+    /\ (forall t, In t (buf_els e nb) -> ~ In t (buf_els e b)).
+Proof.
+  intros EO ((m & HI) & RI & LH) Hh HH HB T R2 NC CF SC UL.
+  pose proof (hget_lt _ _ _ HB) as LTi.
+  pose proof (hinv_pre e w m id b EO HI HB) as P.
+  destruct (typed_pre e b (wctx w) m k P T) as (Hs & EL & J & SL & US & LEN & BE & ULE & NDE & INE).
+  set (sz := esz e k) in *.
+  unfold step. cbn [op_handles forallb].
+  replace (h <? length (whnd w)) with true by (symmetry; apply Nat.ltb_lt; lia). cbn [andb step_op].
+  unfold on_buf. rewrite HH, HB. unfold detach. rewrite HB, T. fold sz.
+  replace (sz =? 0) with false by (symmetry; apply Nat.eqb_neq; lia).
+  set (len' := if len mod sz =? 0 then len else len + (sz - len mod sz)).
+  assert (LL : len <= len') by (unfold len'; destruct (len mod sz =? 0); lia).
+  replace (bref b <? 2) with false by (symmetry; apply Nat.ltb_ge; lia).
+  rewrite NC. cbn [andb negb].
+  set (size := alloc_size e len').
+  assert (SZ : len' <= size) by (apply alloc_size_ge; assumption).
+  destruct (alloc e w len' false false (Some k)) as [w1 nid] eqn:A.
+  assert (W1 : w1 = fst (alloc e w len' false false (Some k))) by (rewrite A; reflexivity).
+  assert (NID : nid = length (wheap w)) by (change nid with (snd (w1, nid)); rewrite <- A; reflexivity).
+  set (nb0 := mkbuf 1 false false size 0 (Some k) (mkslots e (Some k) size)).
+  assert (HN1 : hget w1 nid = Some nb0) by (rewrite W1, hget_alloc, NID, Nat.eqb_refl; reflexivity).
+  assert (C1 : wctx w1 = wctx w) by (rewrite W1; reflexivity).
+  assert (WH1 : whnd w1 = whnd w) by (rewrite W1; reflexivity).
+  assert (L1 : length (wheap w1) = S (length (wheap w))).
+  { rewrite W1. unfold alloc. simpl. rewrite app_length. simpl. lia. }
+  rewrite HN1.
+  replace (negb (bref b - 1 =? 0)) with true by (symmetry; apply negb_true_iff, Nat.eqb_neq; lia).
+  replace (len' <? bused b) with false by (symmetry; apply Nat.ltb_ge; lia).
+  set (w2 := hput w1 id (Some (with_ref b (bref b - 1))) (wctx w1)).
+  change (wctx w2) with (wctx w1). rewrite C1.
+  unfold buffer_set. cbn [bsize btr nb0].
+  replace (size <? 0 + bused b) with false by (symmetry; apply Nat.ltb_ge; lia).
+  fold sz.
+  replace (sz =? 0) with false by (symmetry; apply Nat.eqb_neq; lia).
+  rewrite Nat.mod_0_l by lia.
+  replace (bused b mod sz) with 0 by (rewrite US, mul_mod by assumption; reflexivity).
+  cbn [Nat.eqb negb orb]. rewrite kind_eqb_refl. cbn [negb]. rewrite CF. cbn [andb].
+  rewrite US, SL.
+  pose proof (buffer_set_fresh e k 1 false false size EL J EO ltac:(fold sz; lia)) as BS.
+  fold sz in BS. fold nb0 in BS. rewrite BS by assumption. cbn [bind].
+  set (nb' := with_used (with_slots nb0 (map STok (seq (cnext (wctx w)) (length EL))
+                                          ++ skipn (length EL) (repeat SRaw (size / sz)))) (length EL * sz)).
+  set (c' := mkctx (cnext (wctx w) + length EL) [] (rev (copy_events (cnext (wctx w)) EL) ++ clog (wctx w))).
+  assert (L2 : length (wheap w2) = S (length (wheap w))).
+  { unfold w2. rewrite hput_len by lia. assumption. }
+  set (w3 := hput w2 nid (Some nb') c').
+  exists (set_hnd w3 h (Some nid)), nid, nb'.
+  split; [reflexivity|].
+  assert (NE : nid <> id) by lia.
+  split; [apply handle_set_hnd; simpl; rewrite WH1; lia|]. split; [assumption|].
+  assert (H3N : hget w3 nid = Some nb').
+  { unfold w3. rewrite hget_hput_eq by lia. reflexivity. }
+  assert (H3I : hget w3 id = Some (with_ref b (bref b - 1))).
+  { unfold w3. rewrite hget_hput_ne by (try lia; auto).
+    unfold w2. rewrite hget_hput_eq by lia. reflexivity. }
+  split; [exact H3N|]. split; [exact H3I|]. split.
+  - simpl. rewrite BE. reflexivity.
+  - assert (BN : buf_els e nb' = seq (cnext (wctx w)) (length EL)).
+    { eapply (buf_els_typed e nb' k); simpl; eauto. rewrite seq_length. reflexivity. }
+    rewrite BN, BE. split; [reflexivity|].
+    intros t Ht Hl. apply in_seq in Ht. apply INE in Hl.
+    pose proof (live_lt _ _ _ (hi_mon _ _ _ HI) Hl). lia.
+Qed.
+
+Lemma reachable_winv e nh script ops w :
+  env_ok e -> exec e (init_world nh script) ops = Ok w -> winv e nh w.
+Proof.
+  intros EO E. destruct (exec_total e nh EO ops (init_world nh script) (init_winv e nh script)) as (w' & E' & WI & _).
+  rewrite E in E'. injection E' as <-. assumption.
+Qed.
+
+Lemma shared_copy_reachable e nh script ops w h id b k len :
+  env_ok e -> exec e (init_world nh script) ops = Ok w -> h < nh ->
+  handle w h = Some id -> hget w id = Some b -> btr b = Some k ->
+  2 <= bref b -> bncp b = false -> ecopyfail e = false -> cscript (wctx w) = [] ->
+  bused b <= len ->
+  exists w' nid nb,
+    step e w (OpDetach h len) = Ok (w', OOk)
+    /\ handle w' h = Some nid /\ nid <> id
+    /\ hget w' nid = Some nb /\ hget w' id = Some (with_ref b (bref b - 1))
+    /\ clog (wctx w') = rev (copy_events (cnext (wctx w)) (buf_els e b)) ++ clog (wctx w)
+    /\ buf_els e nb = seq (cnext (wctx w)) (length (buf_els e b))
+    /\ (forall t, In t (buf_els e nb) -> ~ In t (buf_els e b)).
+Proof.
+  intros EO E. apply shared_detach_constructs; [assumption|]. eapply reachable_winv; eassumption.
+Qed.
+
+Lemma reachable_step_total e nh script ops w o :
+  env_ok e -> exec e (init_world nh script) ops = Ok w ->
+  exists w' x, step e w o = Ok (w', x) /\ winv e nh w'.
+Proof.
+  intros EO E. apply step_total_all; [assumption|]. eapply reachable_winv; eassumption.
 Qed.
